@@ -94,14 +94,18 @@ def expected_of(plan, S, lay, drv):
 
 def replay_chunk(args):
     """worker: replay plans [(idx, plan)] -> (ncases, casekeys, mismatches, sample)"""
-    seed, thorough, items, sopath = args
+    seed, thorough, items, sopath, mdir = args
     from harness.pydrv import lz, c16drv as drv
+    marker = os.path.join(mdir, "w%d.json" % os.getpid()) if mdir else None
     if lz.L() is None:
         lz.load(sopath)
     mism = []; keys = []; sample = None; cache = {}
     for idx, plan in items:
         fd = plan["fd"]
         fk = drv.fd_key(fd)
+        if marker:
+            with open(marker, "w") as mf:
+                json.dump([idx, plan], mf)
         if fk not in cache:
             if len(cache) > 64:
                 cache.clear()
@@ -153,7 +157,79 @@ def replay_chunk(args):
             elif sample is None and pieces and plan["fd"]["fmt"] == "lzip" and len(plan["fd"]["mem"]) > 1:
                 sample = dict(kind="replayed_plan", plan={k: plan[k] for k in ("fd", "api", "flags", "mode", "rets", "out", "tin")},
                               slicing=sname, file=data.hex(), observed=dict(rets=r["rets"], out=r["out"].hex(), tin=r["total_in"]))
+    if marker:
+        try:
+            os.unlink(marker)
+        except OSError:
+            pass
     return len(keys), keys, mism, sample
+
+class MiniCtx:
+    """stand-in for the context inside a forked worker: records what the parent replays into the real one"""
+    def __init__(self, ctx):
+        self.seed = ctx.seed; self.tier = ctx.tier; self.workdir = ctx.workdir; self.quick = ctx.quick
+        self.rng = random.Random("%s/child" % ctx.seed)
+        self.cases = []; self.viols = []; self.samples = []; self.traces = 0; self.logs = []; self.extra = {}; self.tlc = []
+        self.tlc_runs = []
+    def case(self, key=None, nontrivial=True): self.cases.append(key)
+    def violation(self, key, detail, replay_obj=None): self.viols.append((key, detail, replay_obj))
+    def sample(self, obj, limit=6): self.samples.append(obj)
+    def add_traces(self, n=1): self.traces += n
+    def log(self, *a): self.logs.append(" ".join(str(x) for x in a))
+    def add_tlc(self, name, r, exhaustive=None): self.tlc.append((name, r, exhaustive))
+    def merge_into(self, ctx):
+        for k in self.cases: ctx.case(key=k)
+        for v in self.viols: ctx.violation(*v)
+        for x in self.samples: ctx.sample(x)
+        for l in self.logs: ctx.log(l)
+        for t in self.tlc: ctx.add_tlc(*t)
+        ctx.tlc_runs += self.tlc_runs
+        ctx.add_traces(self.traces); ctx.extra.update(self.extra)
+
+def _child(args):
+    fn, mini, fargs = args
+    out = fn(mini, *fargs)
+    return mini, out
+
+def _kill_pool(ex):
+    for p in list((getattr(ex, "_processes", None) or {}).values()):
+        try:
+            p.kill()
+        except Exception:
+            pass
+    ex.shutdown(wait=False, cancel_futures=True)
+
+def isolated(ctx, label, fn, fargs, timeout):
+    """run fn(ctx-like, *fargs) in a forked process: liblzma runs in-process there, so an abort (assertion,
+    sanitizer report) or a hang must end as a violation and never take the check down or block it"""
+    from concurrent.futures.process import BrokenProcessPool
+    ex = concurrent.futures.ProcessPoolExecutor(1, mp_context=multiprocessing.get_context("fork"))
+    fut = ex.submit(_child, (fn, MiniCtx(ctx), fargs))
+    try:
+        mini, out = fut.result(timeout=timeout)
+        ex.shutdown(wait=True)
+        mini.merge_into(ctx)
+        return out
+    except BrokenProcessPool:
+        _kill_pool(ex)
+        ctx.violation("crash:%s" % label, "the process running '%s' against the in-process liblzma died (abort / assertion / "
+                      "sanitizer report; see stderr above)" % label, dict(kind="crash", phase=label))
+    except concurrent.futures.TimeoutError:
+        _kill_pool(ex)
+        ctx.violation("hang:%s" % label, "'%s' did not finish within %d s" % (label, timeout), dict(kind="hang", phase=label))
+    return None
+
+def _one_plan(args):
+    return replay_chunk(args)[2]
+
+def crash_key(plan):
+    fd = plan["fd"]; extra = ""
+    if fd["fmt"] == "lzip":
+        ds = [m["ds"] for m in fd["mem"] if m["ds"] != 12]
+        extra = ":ds=0x%02X" % ds[0] if ds else ""
+    elif fd["fmt"] == "alone":
+        extra = ":props=%d" % fd["props"] if fd["props"] != 93 else ":usz=%s" % fd["usz"]
+    return "%s:%s%s" % (plan["api"], fd["fmt"], extra)
 
 def replay(ctx, plans, sopath, nproc):
     items = list(enumerate(plans))
@@ -162,13 +238,55 @@ def replay(ctx, plans, sopath, nproc):
     nchunk = max(nproc * 6, 1)
     size = (len(items) + nchunk - 1) // nchunk
     chunks = [(ctx.seed, not ctx.quick, items[i:i + size], sopath) for i in range(0, len(items), size)]
-    results = []
-    if nproc > 1:
-        mp = multiprocessing.get_context("fork")
-        with mp.Pool(nproc) as pool:
-            results = pool.map(replay_chunk, chunks)
+    from concurrent.futures.process import BrokenProcessPool
+    mdir = os.path.join(ctx.workdir, "markers"); os.makedirs(mdir, exist_ok=True)
+    chunks = [c + (mdir,) for c in chunks]
+    limit = 300 if ctx.quick else 2400
+    deadline = time.time() + limit
+    fork = multiprocessing.get_context("fork")
+    ex = concurrent.futures.ProcessPoolExecutor(nproc, mp_context=fork)
+    futs = [ex.submit(replay_chunk, c) for c in chunks]
+    results = []; failed = None
+    for f in futs:
+        try:
+            results.append(f.result(timeout=max(1.0, deadline - time.time())))
+        except BrokenProcessPool:
+            failed = failed or "crash"
+        except concurrent.futures.TimeoutError:
+            failed = "hang"; break
+    if failed:
+        _kill_pool(ex)
+        # which case was running?  every worker leaves a marker with its current plan; re-run each one alone
+        suspects = []
+        for fn in sorted(os.listdir(mdir)):
+            try:
+                suspects.append(json.load(open(os.path.join(mdir, fn))))
+            except Exception:
+                pass
+        found = False
+        for idx, plan in suspects[:8]:
+            ex1 = concurrent.futures.ProcessPoolExecutor(1, mp_context=fork)
+            fu = ex1.submit(_one_plan, (ctx.seed, not ctx.quick, [(idx, plan)], sopath, None))
+            kind = None
+            try:
+                fu.result(timeout=90)
+                ex1.shutdown(wait=True)
+            except BrokenProcessPool:
+                kind = "crash"
+            except concurrent.futures.TimeoutError:
+                kind = "hang"
+            if kind:
+                _kill_pool(ex1)
+                found = True
+                ctx.violation("%s:%s" % (kind, crash_key(plan)), "decoding this file %s the process (liblzma in-process: abort / assertion / "
+                              "sanitizer report on stderr): %s" % ("kills" if kind == "crash" else "never returns in", json.dumps(
+                                  {k: plan[k] for k in ("fd", "api", "flags", "mode", "rets")})[:900]), dict(kind="plan_crash", plan=plan))
+        if not found:
+            ctx.violation("%s:replay-worker" % failed, "a replay worker %s; the case could not be singled out; running plans: %s" % (
+                "died" if failed == "crash" else "did not finish within %d s" % limit,
+                json.dumps([p["fd"] for _, p in suspects])[:1200]), dict(kind="worker_" + failed))
     else:
-        results = [replay_chunk(c) for c in chunks]
+        ex.shutdown(wait=True)
     seen = set(); n = 0
     for cnt, keys, mism, sample in results:
         n += cnt
@@ -284,6 +402,8 @@ def cli_sequences(ctx, splans):
         jobs.append((k, sp, tool, argv, stop))
     if ctx.quick:
         ctx.rng.shuffle(jobs)
+        # sequences that mix formats first (state carried from one file's format to the next)
+        jobs.sort(key=lambda j: len(set(f["fd"]["fmt"] for f in j[1]["files"])) == 1)
         per = {}; keep = []
         for j in jobs:
             fam = (j[2], tuple(file_class(f["fd"]) for f in j[1]["files"]))
@@ -316,7 +436,7 @@ def cli_sequences(ctx, splans):
                     break
             elif "UNSUPPORTED_CHECK" in f["rets"] and tool == "xz" and exp_rc == 0:
                 exp_rc = 2              # a warning; an error on any operand (exit 1) takes precedence
-        p = subprocess.run([cli[tool]] + argv + paths, stdout=subprocess.PIPE, stderr=subprocess.PIPE, env=env, timeout=60)
+        p = run_tool([cli[tool]] + argv + paths, None, env)
         return job, files, p.returncode, p.stdout, p.stderr, exp_rc, exp_out if cmp_out else None
     seen = set(); n = 0
     with concurrent.futures.ThreadPoolExecutor(6) as ex_:
@@ -451,10 +571,7 @@ def boundary_clause(ctx):
                 jobs.append((pl, prog, argv, fmt, via, path, f, data, k, dd, trail))
     def one(j):
         pl, prog, argv, fmt, via, path, f, data, k, dd, trail = j
-        if via == "file":
-            p = subprocess.run([cli[prog]] + argv + [path], stdin=subprocess.DEVNULL, stdout=subprocess.PIPE, stderr=subprocess.PIPE, env=env, timeout=60)
-        else:
-            p = subprocess.run([cli[prog]] + argv, input=f, stdout=subprocess.PIPE, stderr=subprocess.PIPE, env=env, timeout=60)
+        p = run_tool([cli[prog]] + argv + ([path] if via == "file" else []), None if via == "file" else f, env)
         return j, p.returncode, p.stdout, p.stderr
     seen = set(); n = 0
     with concurrent.futures.ThreadPoolExecutor(6) as ex_:
@@ -558,6 +675,18 @@ def lzmainfo_text(data, plan):
         plan["lc"], plan["lp"], plan["pb"])
     return t.encode()
 
+class _Hung:
+    returncode = -999; stdout = b""; stderr = b"(killed: no result within 60 s)"
+
+def run_tool(argv, data, env):
+    """a tool that does not return is a result (exit -999), not an exception"""
+    try:
+        if data is None:
+            return subprocess.run(argv, stdin=subprocess.DEVNULL, stdout=subprocess.PIPE, stderr=subprocess.PIPE, env=env, timeout=60)
+        return subprocess.run(argv, input=data, stdout=subprocess.PIPE, stderr=subprocess.PIPE, env=env, timeout=60)
+    except subprocess.TimeoutExpired:
+        return _Hung()
+
 def cli_jobs(plans, seed, quick, rng):
     """[(label, argv-tail, tool, data, exp_exit, exp_stdout or None, plan)]"""
     from harness.pydrv import c16drv as drv
@@ -635,7 +764,7 @@ def run_cli(ctx, plans):
     env = dict(os.environ); env.pop("LD_PRELOAD", None); env["LC_ALL"] = "C"
     def one(j):
         tool, argv, data, ex, e_out, plan = j
-        p = subprocess.run([cli[tool]] + argv, input=data, stdout=subprocess.PIPE, stderr=subprocess.PIPE, env=env, timeout=60)
+        p = run_tool([cli[tool]] + argv, data, env)
         return j, p.returncode, p.stdout, p.stderr
     seen = set(); n = 0
     with concurrent.futures.ThreadPoolExecutor(6) as ex_:
@@ -749,6 +878,23 @@ def run(ctx):
     if ctx.replay:
         return replay_one(ctx, L)
     quick = ctx.quick
+    # a check always terminates: overall wall-clock cap
+    cap = 840 if quick else 3300
+    def too_long():
+        try:
+            ctx.violation("hang:check:wall-clock", "the check did not finish within %d s; see the log for the phase that was running" % cap,
+                          dict(kind="hang", phase="whole check"))
+            ctx.finish(rule="aborted by the wall-clock cap", trusted=[])
+        finally:
+            os._exit(1)
+    watchdog = threading.Timer(cap, too_long); watchdog.daemon = True; watchdog.start()
+    try:
+        return run_body(ctx, L, quick)
+    finally:
+        watchdog.cancel()
+
+def run_body(ctx, L, quick):
+    from harness.pydrv import lz
     res = {}
     cfgs = []
     def tl(name, module, cfg, workers, timeout):
@@ -831,20 +977,20 @@ def run(ctx):
     for p in plans:
         if "UNSPEC" in p["rets"]:
             raise MachineryError("a generated plan runs the model into unspecified territory: %s" % json.dumps(p)[:500])
-    nproc = 6 if quick else 8
+    nproc = 4
     n = replay(ctx, plans, L["so"], nproc)
     ctx.log("replayed %d plans into liblzma: %d decoder runs" % (len(plans), n))
     nj = judge(ctx, plans)
     ctx.log("glue judged %d file x decoder combinations" % nj)
     nc = run_cli(ctx, plans)
     ctx.log("ran %d tool invocations" % nc)
-    ne = encoder_clause(ctx)
+    ne = isolated(ctx, "lzma-encoder-clause", encoder_clause, (), 300 if quick else 900)
     boundary_clause(ctx)
     splans = plans_from_tlc(res["GenFormatSeq"].out)
     splans.sort(key=lambda p: json.dumps(p, sort_keys=True))
     if len(splans) < 500:
         raise MachineryError("sequence plan generation produced only %d plans\n%s" % (len(splans), res["GenFormatSeq"].out[-1500:]))
-    ns = replay_sequences(ctx, splans)
+    ns = isolated(ctx, "re-used-handle-replay", replay_sequences, (splans,), 300 if quick else 1500) or 0
     ncs = cli_sequences(ctx, splans)
     ctx.log("re-use: %d sequences of 2-3 files on one re-initialised handle (%d decoder runs), %d multi-file tool invocations" % (
         len(splans), ns, ncs))
